@@ -45,6 +45,22 @@ let bs (b : bool) : string = if b then "B1" else "B0"
 let bit (b : bool) : string = if b then "1" else "0"
 
 
+(* parsers shared by several suites *)
+let parse_ir (t : toks) : M.ir_config =
+  let ct = nz t in
+  let opt = nz t in let pl = nz t in let mx = nz t in
+  let insf = nz t in let insr = nz t in let grpf = nz t in let grpr = nz t in
+  let zero = nz t in let hundred = nz t in
+  let pts = List.init 5 (fun _ -> let u = nz t in let r = nz t in { M.rp_util = u; rp_rate = r }) in
+  { M.ir_optimal = opt; ir_plateau = pl; ir_max = mx; ir_ins_fixed = insf; ir_ins_rate = insr;
+    ir_grp_fixed = grpf; ir_grp_rate = grpr; ir_zero = zero; ir_hundred = hundred; ir_points = pts;
+    ir_curve_type = ct }
+
+let parse_pf (t : toks) : M.prog_fees =
+  let on = nb t in let f = nz t in let r = nz t in
+  { M.pf_on = on; pf_fixed = f; pf_rate = r }
+
+
 (* suite registry *)
 let suites : (string, string -> string) Hashtbl.t = Hashtbl.create 16
 let register (name : string) (f : string -> string) : unit = Hashtbl.replace suites name f
